@@ -12,6 +12,11 @@ use rtlib::{
 };
 
 
+/// When set, `check_state` also compares the fact state stored at every committed command with the
+/// reference state of that command (class "stored-state"); used by families where damage can hide
+/// in a segment's own fact index while the fact cache at the heads is rebuilt by a braid.
+pub static STORED_STATE_CHECK: std::sync::atomic::AtomicBool = std::sync::atomic::AtomicBool::new(false);
+
 #[derive(Clone, Debug, PartialEq, Eq, Hash, PartialOrd, Ord)]
 pub enum Ev {
     /// open (or reuse) transaction slot `trx` and add the nodes in one `add_commands` call
@@ -639,6 +644,47 @@ impl<SP: StorageProvider> Sim<SP> {
             match &obs.hello {
                 Ok(h) if *h == wh => {}
                 other => self.viol("hello", format!("after {what}: hello_head {:?} != reference fold", other.as_ref().map(|(i, m)| (i.as_bytes()[0], *m)))),
+            }
+        }
+        if self.oracles.state && STORED_STATE_CHECK.load(std::sync::atomic::Ordering::Relaxed) {
+            // the fact state STORED at every committed command equals the reference state of that command
+            use rtlib::rt::Storage as _;
+            let ids = self.dag.ids();
+            let mc = self.dag.max_cuts();
+            let graph = self.replica.graph;
+            let mut found: Vec<(&'static str, String)> = Vec::new();
+            match self.replica.client.provider().get_storage(graph) {
+                Err(e) => found.push(("observe-error", format!("get_storage: {e}"))),
+                Ok(storage) => {
+                    let mut buf = rtlib::rt::TraversalBuffer::new();
+                    let mut r = Ref::new(&self.dag);
+                    for i in 0..self.dag.len() {
+                        if self.committed >> i & 1 == 0 {
+                            continue;
+                        }
+                        let loc = match storage.get_location(rtlib::replica::addr(ids[i], mc[i]), &mut buf) {
+                            Ok(Some(l)) => l,
+                            _ => continue, // reported by the command-set clause
+                        };
+                        let got = match storage.get_fact_perspective(loc).map_err(|e| format!("{e}")).and_then(|fp| rtlib::policy::dump_facts(&fp).map_err(|e| format!("{e}"))) {
+                            Ok(g) => g,
+                            Err(e) => {
+                                found.push(("observe-error", format!("facts stored at {}: {e}", node_name(i))));
+                                continue;
+                            }
+                        };
+                        if let Ok(f) = r.state(i) {
+                            let want = dump(&f);
+                            if got != want {
+                                found.push(("stored-state", format!("after {what}: facts stored at {}: {} != reference {}", node_name(i), crate::exec::show_facts(&got), crate::exec::show_facts(&want))));
+                                break;
+                            }
+                        }
+                    }
+                }
+            }
+            for (c, d) in found {
+                self.viol(c, d);
             }
         }
         if self.oracles.effects {
